@@ -38,3 +38,52 @@ package sfnt
 //@   modifies s.glyphs, s.glyphs[*], s.newGid[*]
 //@   ensures !old(has(s.newGid, oldGid)) ==> s.glyphs[len(s.glyphs)-1] == oldGid
 //@   ensures !old(has(s.newGid, oldGid)) ==> forall g uint16 :: g != oldGid && has(s.newGid, g) ==> s.newGid[g] == old(s.newGid[g]) && old(has(s.newGid, g))
+
+// SubsetGlyf: the glyph list is closed under "is a component of", the
+// bijection is maintained, and glyph i of the result is glyph s.glyphs[i] of
+// the original (widths, names transferred; outlines re-pointed by FixComponents).
+//@ pred glyfOK(o *glyf.Outlines) = o != nil && len(o.Glyphs) <= 65535 && len(o.Widths) == len(o.Glyphs) && (o.Names == nil || len(o.Names) == len(o.Glyphs)) && (forall g int :: 0 <= g && g < len(o.Glyphs) ==> o.Glyphs[g] == nil || is(o.Glyphs[g].Data, glyf.SimpleGlyph) || is(o.Glyphs[g].Data, glyf.CompositeGlyph)) && (forall g int :: 0 <= g && g < len(o.Glyphs) ==> o.Glyphs[g] != nil && is(o.Glyphs[g].Data, glyf.CompositeGlyph) ==> forall k int :: 0 <= k && k < len(o.Glyphs[g].Data.(glyf.CompositeGlyph).Components) ==> o.Glyphs[g].Data.(glyf.CompositeGlyph).Components[k].GlyphIndex < len(o.Glyphs))
+//@ pred compsIn(o *glyf.Outlines, s *subsetter, g int) = o.Glyphs[g] != nil && is(o.Glyphs[g].Data, glyf.CompositeGlyph) ==> forall k int :: 0 <= k && k < len(o.Glyphs[g].Data.(glyf.CompositeGlyph).Components) ==> has(s.newGid, o.Glyphs[g].Data.(glyf.CompositeGlyph).Components[k].GlyphIndex)
+
+//@ func (s *subsetter) SubsetGlyf(oldOutlines *glyf.Outlines) (out *glyf.Outlines)   props: C10
+//@   requires bij(s) && glyfOK(oldOutlines) && forall i int :: 0 <= i && i < len(s.glyphs) ==> s.glyphs[i] < len(oldOutlines.Glyphs)
+//@   ensures bij(s) && out != nil && fresh(out) && len(out.Glyphs) == len(s.glyphs) && len(out.Widths) == len(s.glyphs)
+//@   ensures forall i int :: 0 <= i && i < old(len(s.glyphs)) ==> s.glyphs[i] == old(s.glyphs[i])
+//@   ensures forall i int :: 0 <= i && i < len(s.glyphs) ==> s.glyphs[i] < len(oldOutlines.Glyphs) && out.Widths[i] == oldOutlines.Widths[s.glyphs[i]]
+//@   ensures oldOutlines.Names != nil ==> len(out.Names) == len(s.glyphs) && forall i int :: 0 <= i && i < len(s.glyphs) ==> out.Names[i] == oldOutlines.Names[s.glyphs[i]]
+//@   modifies s.glyphs, s.glyphs[*], s.newGid[*]
+//@   loop 0
+//@     invariant todo != nil && fresh(todo) && bij(s) && (forall k int :: 0 <= k && k < iter ==> has(todo, s.glyphs[k])) && (forall g uint16 :: has(todo, g) ==> has(s.newGid, g))
+//@   loop 1
+//@     invariant bij(s) && todo != nil && fresh(todo) && glyfOK(oldOutlines) && newOutlines != nil && fresh(newOutlines)
+//@     invariant forall i int :: 0 <= i && i < len(s.glyphs) ==> s.glyphs[i] < len(oldOutlines.Glyphs)
+//@     invariant forall g uint16 :: has(todo, g) ==> has(s.newGid, g)
+//@     invariant forall i int :: 0 <= i && i < old(len(s.glyphs)) ==> i < len(s.glyphs) && s.glyphs[i] == old(s.glyphs[i])
+//@     invariant ref(s.glyphs) == old(ref(s.glyphs)) || fresh(s.glyphs)
+//@     free_invariant len(s.glyphs) < 65536
+//@     decreases *
+//@   loop 2
+//@     invariant bij(s) && todo != nil && fresh(todo) && glyfOK(oldOutlines) && newOutlines != nil && fresh(newOutlines) && oldGid < len(oldOutlines.Glyphs) && has(s.newGid, oldGid) && !has(todo, oldGid)
+//@     invariant forall i int :: 0 <= i && i < len(s.glyphs) ==> s.glyphs[i] < len(oldOutlines.Glyphs)
+//@     invariant forall g uint16 :: has(todo, g) ==> has(s.newGid, g)
+//@     invariant forall i int :: 0 <= i && i < old(len(s.glyphs)) ==> i < len(s.glyphs) && s.glyphs[i] == old(s.glyphs[i])
+//@     invariant forall k int :: 0 <= k && k < iter ==> has(s.newGid, cc[k])
+//@     invariant oldOutlines.Glyphs[oldGid] != nil && is(oldOutlines.Glyphs[oldGid].Data, glyf.CompositeGlyph) ==> len(cc) == len(oldOutlines.Glyphs[oldGid].Data.(glyf.CompositeGlyph).Components) && forall k int :: 0 <= k && k < len(cc) ==> cc[k] == oldOutlines.Glyphs[oldGid].Data.(glyf.CompositeGlyph).Components[k].GlyphIndex
+//@     invariant (oldOutlines.Glyphs[oldGid] == nil || is(oldOutlines.Glyphs[oldGid].Data, glyf.SimpleGlyph)) ==> len(cc) == 0
+//@     invariant (ref(s.glyphs) == old(ref(s.glyphs)) || fresh(s.glyphs)) && (isnil(cc) || (fresh(cc) && ref(cc) != ref(s.glyphs)))
+//@     free_invariant len(s.glyphs) < 65536
+//@   loop 3
+//@     invariant bij(s) && glyfOK(oldOutlines) && newOutlines != nil && fresh(newOutlines) && len(newOutlines.Glyphs) == len(s.glyphs) && fresh(newOutlines.Glyphs)
+//@     invariant forall i int :: 0 <= i && i < len(s.glyphs) ==> s.glyphs[i] < len(oldOutlines.Glyphs)
+//@     invariant forall i int :: 0 <= i && i < old(len(s.glyphs)) ==> i < len(s.glyphs) && s.glyphs[i] == old(s.glyphs[i])
+//@   loop 4
+//@     invariant bij(s) && glyfOK(oldOutlines) && newOutlines != nil && fresh(newOutlines) && len(newOutlines.Glyphs) == len(s.glyphs) && len(newOutlines.Widths) == len(s.glyphs) && fresh(newOutlines.Widths) && off(newOutlines.Widths) == 0
+//@     invariant forall i int :: 0 <= i && i < len(s.glyphs) ==> s.glyphs[i] < len(oldOutlines.Glyphs)
+//@     invariant forall i int :: 0 <= i && i < old(len(s.glyphs)) ==> i < len(s.glyphs) && s.glyphs[i] == old(s.glyphs[i])
+//@     invariant forall i int :: 0 <= i && i < iter ==> newOutlines.Widths[i] == oldOutlines.Widths[s.glyphs[i]]
+//@   loop 5
+//@     invariant bij(s) && glyfOK(oldOutlines) && newOutlines != nil && fresh(newOutlines) && len(newOutlines.Glyphs) == len(s.glyphs) && len(newOutlines.Widths) == len(s.glyphs) && fresh(newOutlines.Widths)
+//@     invariant oldOutlines.Names != nil && len(newOutlines.Names) == len(s.glyphs) && fresh(newOutlines.Names) && off(newOutlines.Names) == 0
+//@     invariant forall i int :: 0 <= i && i < len(s.glyphs) ==> s.glyphs[i] < len(oldOutlines.Glyphs) && newOutlines.Widths[i] == oldOutlines.Widths[s.glyphs[i]]
+//@     invariant forall i int :: 0 <= i && i < old(len(s.glyphs)) ==> i < len(s.glyphs) && s.glyphs[i] == old(s.glyphs[i])
+//@     invariant forall i int :: 0 <= i && i < iter ==> newOutlines.Names[i] == oldOutlines.Names[s.glyphs[i]]
